@@ -45,6 +45,10 @@ func Escape(str string, isBytes bool) (string, error) {
 				} else {
 					buf = append(buf, `\t`...)
 				}
+			case '\r':
+				// There is no \r escape sequence, and Unescape turns a raw
+				// carriage return into a newline.
+				buf = append(buf, `\x0d`...)
 			case '\\':
 				if isBytes {
 					buf = append(buf, `\x5c`...)
